@@ -173,7 +173,21 @@ def run(ck):
                 collinear = all(abs((w - z[0]).real * d0.imag - (w - z[0]).imag * d0.real) == 0 for w in z) if d0 != 0 else True
                 atol = (5e-3 if collinear else 1e-6) * hi       # a collinear lattice curve may fold back: the speed vanishes inside
                 if isinstance(Lg, Exception) or not (lo - 1e-9 * hi <= Lg <= hi + 1e-9 * hi) or not (abs(parts - Lg) <= atol):
-                    ck.disagree(key='%s.length/outside-bracket-or-not-additive' % type(seg).__name__, site='svgpathtools/path.py:length',
+                    key_ = '%s.length/outside-bracket-or-not-additive' % type(seg).__name__
+                    if cfg == 'scipy' and not isinstance(Lg, Exception) and (lo - 1e-9 * hi <= Lg <= hi + 1e-9 * hi):
+                        # is it scipy.integrate.quad alone?  (called with epsabs=error only, it stops at its default *relative* tolerance 1.49e-8 of an
+                        # error estimate that a sharp dip of the speed can fool): the recursive fallback on a new object must then be accurate
+                        sppath._quad_available = False
+                        try:
+                            fb = make(z)
+                            fparts = fb.length(0, 0.375) + fb.length(0.375, 1)
+                            if abs(fparts - fb.length()) <= atol and abs(fb.length() - Lg) <= atol:
+                                key_ = '%s.length/scipy-quad-fooled-by-a-sharp-speed-minimum' % type(seg).__name__
+                        except Exception:      # noqa
+                            pass
+                        finally:
+                            sppath._quad_available = True
+                    ck.disagree(key=key_, site='svgpathtools/path.py:length',
                                 what='[%s] %r: length %r, bracket [%r, %r], length(0,.375)+length(.375,1) = %r' % (cfg, seg, Lg, lo, hi, parts),
                                 case={'z': [str(w) for w in z], 'cfg': cfg}, expected=[lo, hi], observed=repr(Lg), driver='generic')
                 # the same request on a segment object whose whole length was first asked for with rough tolerances
@@ -202,6 +216,15 @@ def run(ck):
                         ck.disagree(key='%s.length/sub-interval-after-reassigning-control-points' % type(seg).__name__, site='svgpathtools/path.py:length',
                                     what='[%s] %r: length(0,.375)+length(.375,1) = %r on an object whose control points were reassigned after a length() call, %r on a new one' % (cfg, seg, p3, parts),
                                     case={'z': [str(w) for w in z], 'cfg': cfg}, expected=parts, observed=repr(p3), driver='generic')
+            # the recorded example of the open scipy finding (so that the KNOWN-FINDING line does not depend on the seed)
+            if cfg == 'scipy':
+                zq = [4 + 1j, 1 + 1j, -3 - 3j, 4 + 4j]
+                sq = make(zq)
+                ck.case(fp=('recorded-quad-example', cfg), nontrivial=True)
+                if not (abs(sq.length(0, 0.375) + sq.length(0.375, 1) - sq.length()) <= 1e-6 * sq.length()):
+                    ck.disagree(key='CubicBezier.length/scipy-quad-fooled-by-a-sharp-speed-minimum', site='svgpathtools/path.py:length',
+                                what='[scipy] %r: length(0,.375)+length(.375,1) = %r, length() = %r' % (sq, sq.length(0, 0.375) + sq.length(0.375, 1), sq.length()),
+                                case={'z': [str(w) for w in zq], 'cfg': cfg}, expected=sq.length(), observed=sq.length(0, 0.375) + sq.length(0.375, 1), driver='generic')
             # paths: sum of the segments
             segs = [sp.Line(0j, 3 + 4j), sp.QuadraticBezier(3 + 4j, 6 + 8j, 3 + 4j), sp.CubicBezier(3 + 4j, 1 + 1j, 5 - 2j, 7 + 0j),
                     sp.Arc(7 + 0j, 5 + 5j, 0, False, True, 13 + 8j)]
